@@ -225,6 +225,10 @@ func intToVal(v *big.Int, e10 int64, neg bool, extraPrec uint, mode decimal.Roun
 // tailPatterns are digit tails that follow the kept digits of a constructed result.
 func (g *Gen) tail() string {
 	k := 1 + g.intn(24)
+	if g.chance(0.25) {
+		// runs longer than one or two whole words: the decisive digit lies beyond any fixed number of guard words
+		k = 19*(1+g.intn(3)) + g.intn(20)
+	}
 	z := func(n int) string { return strings.Repeat("0", n) }
 	nn := func(n int) string { return strings.Repeat("9", n) }
 	switch g.intn(9) {
